@@ -1008,9 +1008,18 @@ NOINSTR static void child_run(const Plan &p, int resfd, bool want_sink, bool wan
 	static const char *argv0s[] = {"cproc-qbe", "/usr/local/bin/cproc-qbe", "./cproc-qbe", "x86_64-cproc-qbe", "aarch64-linux-musl-cproc-qbe", "riscv64-cproc-qbe", "cc1"};
 	std::vector<std::string> args;
 	args.push_back(argv0s[(unsigned)p.argv0 % 7]);
-	if (p.target > 0) { args.push_back("-t"); args.push_back(TARGETS[p.target]); }
-	if (p.pponly) args.push_back("-E");
-	if (p.dash_o) { args.push_back("-o"); args.push_back("/sim/out"); }
+	// the same options spelled differently must mean the same
+	if (p.argstyle == 1) {
+		if (p.pponly && p.target > 0) { args.push_back(std::string("-Et") + TARGETS[p.target]); }
+		else { if (p.target > 0) args.push_back(std::string("-t") + TARGETS[p.target]); if (p.pponly) args.push_back("-E"); }
+		if (p.dash_o) args.push_back("-o/sim/out");
+	} else {
+		if (p.argstyle == 3 && p.dash_o) { args.push_back("-o"); args.push_back("/sim/first-choice"); }
+		if (p.target > 0) { args.push_back("-t"); args.push_back(TARGETS[p.target]); }
+		if (p.pponly) args.push_back("-E");
+		if (p.dash_o) { args.push_back("-o"); args.push_back("/sim/out"); }
+		if (p.argstyle == 2) args.push_back("--");
+	}
 	bool use_stdin = p.via_stdin && p.files.size() == 1;
 	if (!use_stdin) for (auto &f : p.files) args.push_back(alt_name(p, f.name));
 	std::vector<char *> av;
